@@ -49,6 +49,11 @@ const (
 	// earlier compacted output (DuckDB drops arc:tags) re-compacted with raw
 	// files that declare fewer tag columns: dedup key too coarse, rows lost
 	kfC09Coarse = "C09-recompact-coarse-key"
+	// the parent Manager's manifest-file cache (30 s TTL) omits output paths
+	// on a hit and cannot see manifests written by the job's own
+	// ManifestManager: a later scan of the same files on the same Manager
+	// within the TTL re-compacts manifest-tracked files
+	kfC09Cache = "C09-manifest-cache-stale"
 
 	c09DB   = "vdb"
 	c09Meas = "cpu"
@@ -87,6 +92,7 @@ type c09Step struct {
 	ErrAt   int       `json:"err_at,omitempty"`
 	MidFrac float64   `json:"mid_frac,omitempty"`
 	Late    bool      `json:"late,omitempty"`
+	GapS    int       `json:"gap_s,omitempty"` // extra seconds the harness clock advances before the step
 	Plan    []c09Plan `json:"plan,omitempty"`
 	// Reuse: the cycle runs on the Manager of the previous cycle step (a
 	// long-lived server: its ManifestManager cache survives between cycles).
@@ -247,12 +253,34 @@ func genC09Case(t *rapid.T, maxFiles int) *c09Case {
 }
 
 func genC09Script(t *rapid.T, c *c09Case) {
+	defer func() {
+		// Exclusion for C09-manifest-cache-stale: with both tiers in one cycle
+		// the daily tier re-scans the hour files on the same Manager inside the
+		// cache TTL; no job of such a cycle may leave a manifest behind.
+		if c.Tier != "both" || !verifkit.Excluded(kfC09Cache) {
+			return
+		}
+		for i := range c.Script {
+			st := &c.Script[i]
+			if st.Kind == "inproc" && st.ErrAt != 0 {
+				st.ErrAt = 0
+				verifkit.CountExcluded(kfC09Cache)
+			}
+			for j := range st.Plan {
+				if !st.Plan[j].Clean {
+					st.Plan[j] = c09Plan{Clean: true}
+					verifkit.CountExcluded(kfC09Cache)
+				}
+			}
+		}
+	}()
 	steps := rapid.IntRange(1, 3).Draw(t, "nsteps")
 	for i := 0; i < steps; i++ {
 		s := c09Step{Late: rapid.Bool().Draw(t, "late")}
 		if rapid.IntRange(0, 2).Draw(t, "kind") == 0 {
 			s.Kind = "cycle"
 			s.Reuse = rapid.Bool().Draw(t, "reuse")
+			s.GapS = rapid.SampledFrom([]int{0, 0, 45}).Draw(t, "gap")
 			np := rapid.IntRange(1, 3).Draw(t, "nplans")
 			for j := 0; j < np; j++ {
 				p := c09Plan{}
@@ -368,6 +396,7 @@ type c09World struct {
 	history          []string
 	nonTrivial       bool
 	excluded         map[string]int
+	clock            time.Time           // harness clock (clock seam of hourly.go, daily.go, manifest.go)
 	liveMgr          *Manager            // long-lived Manager of "cycle" steps with Reuse
 	liveFault        *storage.VerifFault // its storage wrapper (never crashes; scripted delete faults only)
 	stepCrashed      []bool              // per script step: did a crash/kill fire
@@ -501,12 +530,22 @@ func (w *c09World) manager(be storage.Backend) *Manager {
 		DefaultSortKeys: sk, Tiers: w.tiers(be), Logger: c09Logger()})
 }
 
-func c09SetClock(late bool) {
-	if late {
-		VerifSetClock(time.Now().Add(3 * time.Hour))
-	} else {
-		VerifSetClock(time.Time{})
+// tick advances the harness clock and installs it in the package's clock seam.
+// The code under test never sees the wall clock in the parent process: the
+// clock starts at the real time the partition was built (output names written
+// by subprocesses carry the real time) and moves only here: +1 s per step,
+// +gap seconds, +3 h for a "late" step. Within a step it stands still, so
+// whether the ManifestManager's 30 s cache is fresh is decided by the script,
+// never by how slow the machine is.
+func (w *c09World) tick(s c09Step) {
+	if w.clock.IsZero() {
+		w.clock = time.Now()
 	}
+	w.clock = w.clock.Add(time.Second + time.Duration(s.GapS)*time.Second)
+	if s.Late {
+		w.clock = w.clock.Add(3 * time.Hour)
+	}
+	VerifSetClock(w.clock)
 }
 
 // ---- exclusion predicates (switched on only while the finding is open)
@@ -590,7 +629,7 @@ func (w *c09World) inproc(s c09Step) (res c09StepResult, err error) {
 	if s.Sym != "" {
 		fb.CrashWhen = func(p storage.VerifPoint, tr []storage.VerifPoint) bool { return c09SymMatch(s.Sym, p, tr) }
 	}
-	c09SetClock(s.Late)
+	w.tick(s)
 	db, err := c09SharedJobDB()
 	if err != nil {
 		return res, err
@@ -694,7 +733,7 @@ func (w *c09World) cycle(s c09Step) (reports []c09ChildReport, err error) {
 		os.Unsetenv("VERIF_C09_PLAN")
 		os.Unsetenv("VERIF_C09_REPORT")
 	}()
-	c09SetClock(s.Late)
+	w.tick(s)
 	if !s.Reuse || w.liveMgr == nil {
 		w.liveFault = storage.NewVerifFault(lb, storage.VerifPanic, 0)
 		w.liveMgr = w.manager(w.liveFault)
@@ -1144,11 +1183,11 @@ func TestVerifC09_EnumInproc(t *testing.T) {
 	if verifkit.Tier() == "thorough" {
 		cfgs = nil
 		for _, m := range []string{"plain", "tags", "dedup_time"} {
-			for _, n := range []int{2, 3, 4, 6, 8} {
-				cfgs = append(cfgs, cfg{n, m, "hourly", two})
+			for _, n := range []int{2, 4, 6} {
+				cfgs = append(cfgs, cfg{n, m, "hourly", one})
 			}
-			cfgs = append(cfgs, cfg{5, m, "daily", two}, cfg{6, m, "both", one})
 		}
+		cfgs = append(cfgs, cfg{5, "plain", "daily", two}, cfg{6, "tags", "both", one})
 	}
 	complete := true
 	for ci, cf := range cfgs {
@@ -1206,7 +1245,7 @@ func TestVerifC09_EnumKill(t *testing.T) {
 	}
 	cfgs := []cfg{{3, "tags"}, {4, "plain"}}
 	if verifkit.Tier() == "thorough" {
-		cfgs = []cfg{{2, "plain"}, {3, "plain"}, {4, "plain"}, {5, "plain"}, {9, "plain"}, {4, "tags"}, {8, "dedup_time"}}
+		cfgs = []cfg{{3, "plain"}, {5, "plain"}, {4, "tags"}}
 	}
 	truncated := false
 	for ci, cf := range cfgs {
@@ -1214,7 +1253,7 @@ func TestVerifC09_EnumKill(t *testing.T) {
 		for k := 1; ; k++ {
 			c := c09Clone(base)
 			c.Script = []c09Step{{Kind: "cycle", Plan: []c09Plan{{CrashAt: k, MidFrac: 0.5}}}}
-			c.CheapFinal = verifkit.Tier() == "quick" && k%4 != 0
+			c.CheapFinal = k%4 != 0
 			w, err := newC09World(c, db)
 			if err != nil {
 				t.Fatalf("C09 harness: %v", err)
@@ -1306,7 +1345,7 @@ func TestVerifC09_Scenarios(t *testing.T) {
 // TestVerifC09_Random: random partitions x random scripts.
 func TestVerifC09_Random(t *testing.T) {
 	db := c09Duck(t)
-	maxFiles := verifkit.Scale(10, 24)
+	maxFiles := verifkit.Scale(10, 18)
 	rapid.Check(t, func(rt *rapid.T) {
 		c := genC09Case(rt, maxFiles)
 		genC09Script(rt, c)
@@ -1419,4 +1458,35 @@ func TestVerifKF_C09_recompact_coarse_key(t *testing.T) {
 	msg := w.runCase()
 	t.Logf("final check: %q; files=%v; history:\n  %s", msg, c09Base(w.parquetFiles()), strings.Join(w.history, "\n  "))
 	verifkit.KnownFinding(kfC09Coarse, strings.Contains(msg, "class=C09/row-lost") && strings.Contains(msg, `"region"="s:`), msg)
+}
+
+// TestVerifKF_C09_manifest_cache_stale: three 2-file hours, hourly + daily tier
+// in ONE cycle of one Manager; the FIRST hourly subprocess is killed after its
+// upload (2 files cannot be split, so its manifest M1 survives the cycle). The
+// third hour's candidate filter runs after that and builds the manifest-file
+// snapshot {M1}; the daily tier's filter, inside the 30 s TTL, is served from
+// it, and the cached set holds M1's inputs but not M1's OUTPUT (only the
+// rebuild path adds manifest.OutputPath). The daily job therefore compacts the
+// three hourly outputs into a daily file; the next cycle's recovery finds M1's
+// output gone, drops the manifest and leaves the inputs, whose rows are now
+// visible twice.
+func TestVerifKF_C09_manifest_cache_stale(t *testing.T) {
+	db := c09Duck(t)
+	files := c09PlainFiles(6)
+	for i, h := range []int{14, 14, 3, 3, 7, 7} {
+		files[i].Hour = h
+		files[i].Name = fmt.Sprintf("%s_20240305_%02d00%02d_%09d.parquet", c09Meas, h, i, 100000+i)
+		files[i].Rows = []map[string]any{{"time": c09Day.Add(time.Duration(h)*time.Hour).UnixMicro() + int64(i)*1_000_000, "host": "a", "v": float64(i)}}
+	}
+	c := &c09Case{Tier: "both", Mode: "plain", MaxBatch: 30, Files: files, CheapFinal: true,
+		Script: []c09Step{{Kind: "cycle", Plan: []c09Plan{{Sym: "first-input-delete"}}}}}
+	w, err := newC09World(c, db)
+	if err != nil {
+		t.Fatalf("C09 harness: %v", err)
+	}
+	defer w.close()
+	msg := w.runCase()
+	dup, what := c09Doubled(w)
+	t.Logf("final check: %q; %s; history:\n  %s", msg, what, strings.Join(w.history, "\n  "))
+	verifkit.KnownFinding(kfC09Cache, dup && strings.Contains(msg, "rows-differ"), what)
 }
